@@ -707,7 +707,7 @@ class BaseProxy(_BaseProxy_):
                 self._Client,
                 self._server,
             ),
-            # exitpriority=10,
+            exitpriority=10,
         )
 
     # Changes to the original version:
@@ -777,9 +777,10 @@ def RebuildProxy(func, token, serializer, kwds):
     """
     Function used for unpickling proxy objects.
     """
-    incref = kwds.pop('incref', True) and not getattr(
-        current_process(), '_inheriting', False
-    )
+    incref = kwds.pop('incref', True)
+    # Do not skip this while a child process is unpickling its arguments
+    # (`current_process()._inheriting`): `__reduce__` has already taken a reference
+    # for the pickle in transit, and the rebuilt proxy must own (and eventually release) it.
     obj = func(token, serializer, incref=incref, **kwds)
     # `func` is either `AutoProxy` or a subclass of `BaseProxy`.
     # TODO: it appears `incref` is True some times and False some others, affecting by the '_inheriting` condition.
